@@ -234,6 +234,12 @@ func (cs *clientStream) CloseSend() error {
 	if err != nil {
 		// As in SendMsg: the stream is aborted. The generated code gives the
 		// call up on this error, and nobody else would release the stream.
+		// It ends as a failure, whatever the read loop still finds queued.
+		cs.protected.Lock()
+		if !cs.protected.done {
+			cs.protected.eErr = err
+		}
+		cs.protected.Unlock()
 		cs.teardown(false)
 	}
 	return err
@@ -419,6 +425,11 @@ func (cs *clientStream) readLoop() error {
 		close(cs.rCh)
 		sendRst := trailer == nil && cs.ctx.Err() != nil
 		cs.teardown(sendRst)
+
+		if cs.protected.eErr != nil && (rErr == nil || rErr == io.EOF) {
+			// Aborted by a failed send before this loop saw the end.
+			rErr = toStatusError(cs.protected.eErr)
+		}
 
 		cs.protected.done = true
 		cs.protected.rErr = rErr
